@@ -84,10 +84,10 @@ def chargedUsages (s : State) : Op → Option (Bytes × List Nat × List (Int ×
        | some _ => some (r.supi, r.trigs, ue.groups, r.usages))
   | _ => none
 
-/-- the property's quantifier for one operation: peers answer, products fit (decidable) -/
+/-- the property's quantifier for one operation: both servers reachable, peers answer, products fit (decidable) -/
 def opOKb (s : State) (op : Op) : Bool :=
   match chargedUsages s op with
-  | some (supi, trigs, groups, us) => ccOKb s.tariffs supi trigs s.accts groups us
+  | some (supi, trigs, groups, us) => s.abmfUp && s.rfUp && ccOKb s.tariffs supi trigs s.accts groups us
   | none => true
 
 /-- unit cost × online usage reported by the operation for (supi, rg) -/
@@ -106,6 +106,91 @@ def creditedOp (s : State) (op : Op) (supi : Bytes) (rg : Int) : Int :=
        | none => 0)
     else 0
   | _ => 0
+
+
+/-! ### across outages of the account-balance / rating server
+
+  What the code books for a reported usage when a server cannot be reached (the error paths of
+  sessionChargingReservation), stated without reference to the branch functions of the model:
+  * reserve mode: `ReservedQuota -= used × unit cost` happens before any account request, whether or not the
+    account server answers; the unit cost is the tariff's, or 1 when the rating server is unreachable (getUnitCost);
+  * debit mode: the final price is settled only when both servers answer — otherwise `continue`: nothing is booked. -/
+
+/-- unit cost the CHF applies to a usage report -/
+def appliedCost (rfUp : Bool) (tariffs : List Rating.Tariff) (supi : Bytes) (u : Usage) : Nat :=
+  if rfUp then
+    match Rating.findCost tariffs supi (u32 u.rg) with
+    | some s => costOf s
+    | none => 1
+  else 1
+
+/-- money booked for one reported usage, given which servers can be reached -/
+def accountedUsage (abmfUp rfUp : Bool) (tariffs : List Rating.Tariff) (supi : Bytes) (trigs : List Nat)
+    (groups : List (Int × RgState)) (u : Usage) : Nat :=
+  if anyOnline u.cs then
+    if (entryState trigs groups u).mode = 1 then totalUsed u.cs * appliedCost rfUp tariffs supi u
+    else if abmfUp && rfUp then ratedUsage tariffs supi u else 0
+  else 0
+
+/-- the stores as the CHF reaches them -/
+def seenEnv (abmfUp rfUp : Bool) (accts : Abmf.Store) (tariffs : List Rating.Tariff) : Env :=
+  { accts := if abmfUp then accts else [], tariffs := if rfUp then tariffs else [] }
+
+/-- side conditions of one usage for any reachability: a reachable server knows the subscriber and the products
+    fit (as `usageOKb`); nothing is asked of a server that is not reached -/
+def usageOKx (abmfUp rfUp : Bool) (e : Env) (supi : Bytes) (trigs : List Nat) (groups : List (Int × RgState))
+    (u : Usage) : Bool :=
+  if anyOnline u.cs then
+    decide (imsiPrefix ++ subData supi = supi) &&
+    decide (-2147483648 ≤ u.rg ∧ u.rg < 2147483648) &&
+    decide ((entryState trigs groups u).mode = 1 ∨ (entryState trigs groups u).mode = 2) &&
+    decide (-2305843009213693952 ≤ resv groups u.rg ∧ resv groups u.rg ≤ 2305843009213693952) &&
+    (if rfUp then
+       match Rating.findCost e.tariffs supi (u32 u.rg) with
+       | some s => decide (totalUsed u.cs * costOf s < 4294967296) && decide (reqVolOf u * costOf s < 4294967296)
+       | none => false
+     else true) &&
+    (if abmfUp then
+       match balOf e.accts supi (u32 u.rg) with
+       | some b => decide (-2305843009213693952 ≤ b ∧ b ≤ 2305843009213693952)
+       | none => false
+     else true)
+  else decide (-2147483648 ≤ u.rg ∧ u.rg < 2147483648)
+
+/-- the account store after one usage: requests that reached no server changed nothing -/
+def acctsNext (abmfUp rfUp : Bool) (tariffs : List Rating.Tariff) (supi : Bytes) (trigs : List Nat)
+    (accts : Abmf.Store) (groups : List (Int × RgState)) (u : Usage) : Abmf.Store :=
+  if abmfUp then (usageStep (seenEnv abmfUp rfUp accts tariffs) supi trigs groups u).1 else accts
+
+def ccOKx (abmfUp rfUp : Bool) (tariffs : List Rating.Tariff) (supi : Bytes) (trigs : List Nat) :
+    Abmf.Store → List (Int × RgState) → List Usage → Bool
+  | _, _, [] => true
+  | accts, groups, u :: r =>
+    usageOKx abmfUp rfUp { accts := accts, tariffs := tariffs } supi trigs groups u &&
+    ccOKx abmfUp rfUp tariffs supi trigs (acctsNext abmfUp rfUp tariffs supi trigs accts groups u)
+      (usageStep (seenEnv abmfUp rfUp accts tariffs) supi trigs groups u).2.1 r
+
+/-- money booked by a usage list for one rating group -/
+def accountedList (abmfUp rfUp : Bool) (tariffs : List Rating.Tariff) (supi : Bytes) (trigs : List Nat) (rg : Int) :
+    Abmf.Store → List (Int × RgState) → List Usage → Int
+  | _, _, [] => 0
+  | accts, groups, u :: r =>
+    (if rg = u.rg then (accountedUsage abmfUp rfUp tariffs supi trigs groups u : Int) else 0) +
+    accountedList abmfUp rfUp tariffs supi trigs rg (acctsNext abmfUp rfUp tariffs supi trigs accts groups u)
+      (usageStep (seenEnv abmfUp rfUp accts tariffs) supi trigs groups u).2.1 r
+
+/-- side conditions of one operation whatever can be reached (`opOKb` without "rating and account servers reachable") -/
+def opOKx (s : State) (op : Op) : Bool :=
+  match chargedUsages s op with
+  | some (supi, trigs, groups, us) => ccOKx s.abmfUp s.rfUp s.tariffs supi trigs s.accts groups us
+  | none => true
+
+/-- money booked by the operation for (supi, rg) -/
+def accountedOp (s : State) (op : Op) (supi : Bytes) (rg : Int) : Int :=
+  match chargedUsages s op with
+  | some (supi', trigs, groups, us) =>
+    if supi' = supi then accountedList s.abmfUp s.rfUp s.tariffs supi trigs rg s.accts groups us else 0
+  | none => 0
 
 
 /-! ### the grant ledger (C06): last granted volume per rating group of one subscriber -/
@@ -163,14 +248,15 @@ def setLedger : Ledgers → Bytes → Ledger → Ledgers
 /-- the consumer is compliant on this operation (and an external credit does not take money away) -/
 def opCompliantB (s : State) (Ls : Ledgers) (op : Op) : Bool :=
   match chargedUsages s op with
-  | some (supi, trigs, groups, us) => compliantCC s.tariffs supi trigs s.accts groups (ledgerOf Ls supi) us
+  | some (supi, trigs, groups, us) => compliantCC (seenTariffs s) supi trigs (seenAccts s) groups (ledgerOf Ls supi) us
   | none => match op with
     | .credit _ _ amt => decide (0 ≤ amt)
     | _ => true
 
 def ledgersStep (s : State) (Ls : Ledgers) (op : Op) : Ledgers :=
   match chargedUsages s op with
-  | some (supi, trigs, groups, us) => setLedger Ls supi (ledgerCC s.tariffs supi trigs s.accts groups (ledgerOf Ls supi) us)
+  | some (supi, trigs, groups, us) =>
+    setLedger Ls supi (ledgerCC (seenTariffs s) supi trigs (seenAccts s) groups (ledgerOf Ls supi) us)
   | none => Ls
 
 end Chf.Charging
